@@ -185,6 +185,8 @@ func (g *Gen) topDecls(f *FileT, nm int) {
 			g.feat("macro-called-before-declaration")
 		}
 	}
+	// the file ends with a new line (finding cut-last-line-without-newline otherwise)
+	f.Top = append(f.Top, &Stmt{K: "text", S: "\n"})
 	g.decls = false
 }
 
